@@ -443,6 +443,80 @@ def pair_sequences(rep):
             rep.case(key=('pair', i, j))
 
 
+def resimplify_sequences(rep, rng, n):
+    """simplify(f) = r in one environment, then simplify(r) there, against
+    simplify(r) in an environment that has never seen f (a result recorded
+    as its own fixpoint would show here)."""
+    from pysmt.environment import Environment, push_env, pop_env
+    x, y, z = B.Sym('x', B.INT), B.Sym('y', B.INT), B.Sym('z', B.INT)
+    r, q = B.Sym('r', B.REAL), B.Sym('q', B.REAL)
+    p, o = B.Sym('p', B.BOOL), B.Sym('o', B.BOOL)
+    b, c = B.Sym('b', B.BV(4)), B.Sym('c', B.BV(4))
+    T = lambda *a: ('times', None, a)
+    P = lambda *a: ('plus', None, a)
+    fixed = [
+        ('le', None, (P(x, T(x, B.Int(-1))), z)),
+        ('le', None, (P(T(B.Int(-1), x), x), z)),
+        ('le', None, (P(r, T(r, B.Real(-1))), q)),
+        ('le', None, (P(x, T(y, B.Int(-1)), T(x, B.Int(-1))), z)),
+        ('eq', None, (('minus', None, (P(x, y), y)), z)),
+        ('le', None, (T(P(x, B.Int(0)), B.Int(1)), z)),
+        ('eq', None, (('ite', None, (p, P(x, B.Int(0)), x)), z)),
+        ('and', None, (p, ('or', None, (p, o)), ('not', None, (
+            ('not', None, (o,)),)))),
+        ('eq', None, (('bvadd', None, (b, ('bvneg', None, (b,)))), c)),
+        ('eq', None, (('bvsub', None, (('bvadd', None, (b, c)), c)), b)),
+        ('le', None, (('div', None, (T(r, B.Real(2)), B.Real(2))), q)),
+        ('lt', None, (('toreal', None, (P(x, T(x, B.Int(-1))),)), r)),
+    ]
+    cfgs = [G.Cfg(max_depth=4, quant=False, strings=False, arrays=False,
+                  uf=False, custom=False, share=0.3),
+            G.Cfg(max_depth=4, share=0.3)]
+    idx = 0
+    for k in range(n):
+        if k < len(fixed):
+            fb = fixed[k]
+        else:
+            fb = G.Gen(rng, cfgs[k % 2]).term(B.BOOL)
+        idx += 1
+        if idx % rep.nshards != rep.shard:
+            continue
+        if rep.out_of_time():
+            rep.notes.append('resimplify sequences truncated')
+            return
+        envA = Environment()
+        push_env(envA)
+        try:
+            o1 = outcome(lambda: B.build(fb, envA).simplify())
+            if o1[0] != 'ok':
+                continue
+            try:
+                rb = B.describe(o1[1])
+            except B.Undescribable:
+                continue
+            o2 = outcome(lambda: o1[1].simplify())
+        finally:
+            pop_env()
+        envB = Environment()
+        push_env(envB)
+        try:
+            o3 = outcome(lambda: B.build(rb, envB).simplify())
+        finally:
+            pop_env()
+        rep.count('resimplify_checks')
+        rep.case(key=('resimplify', hash(fb)))
+        got = ('ok', val(o2[1])) if o2[0] == 'ok' else o2
+        want = ('ok', val(o3[1])) if o3[0] == 'ok' else o3
+        if got != want:
+            rep.violation(
+                'C14/history-dependent/resimplify',
+                'simplify(%s) = r = %s; simplify(r) in the same environment '
+                'gives %s, in a fresh one %s' % (
+                    B.show(fb, 100), B.show(rb, 100), str(got)[:160],
+                    str(want)[:160]), {'bp': B.to_json(fb),
+                                       'kind': 'resimplify'})
+
+
 def constant_sequences(rep):
     """Deterministic pairs: create c1, then ask for c2 (== c1 in Python)."""
     from pysmt.environment import Environment, push_env, pop_env
@@ -489,6 +563,10 @@ def run(rep):
     rep.share(0.35)
     if not rep.only or rep.only == 'pairs':
         pair_sequences(rep)
+    rep.share(0.45)
+    if not rep.only or rep.only == 'resimplify':
+        resimplify_sequences(rep, random.Random(rep.seed * 977 + 3),
+                             2000 if rep.tier == 'quick' else 200000)
     rep.share(1.0)
     n = 500 if rep.tier == 'quick' else 20000
     j = 0
